@@ -13,6 +13,10 @@ Proof obligations: lean/RtcVerif/Props/C13.lean.  Correspondence:
   integral` (before t0, at t0, inside the horizon; as CasADi functions of X at several probe
   vectors) in optimisation, and `get_var/set_var` sequences in simulation.
 
+* PI export (harness/c13_pi.py): generated models with positive and negated output aliases run
+  through the real optimisation `PIMixin`; `timeseries_export.xml` is parsed and every exported
+  alias series (also under a mapped `-name` id) must be sign * the series of the quantity.
+
 Independent oracle: quantities are identified by a union-find with sign parity built from the
 generator's own alias equations (never from `canonical_signed`); the value seen through a name is
 `sign(name) * value(quantity)`.
@@ -549,7 +553,7 @@ def stream_exhaustive(c, length):
 
 
 def run(c):
-    from . import c13_models
+    from . import c13_models, c13_pi
 
     c.rule = (
         "random consistent alias graphs (2-7 names; chains, stars, random edges, negations, `-name` keys) built "
@@ -574,6 +578,7 @@ def run(c):
     nalpha = stream_exhaustive(c, L)
     stream_random(c, c.n(400, 6000))
     c13_models.run_models(c, c.n(8, 80))
+    c13_pi.run_pi(c, c.n(4, 30))
     c.exhaustive = False
     c.extra["exhaustive_subspace"] = (
         "all %d^%d operation sequences of length %d (hence all shorter ones) over the names a, b, c with "
